@@ -407,7 +407,9 @@ def exotic_examples(chk, rng, tier, stats):
                 break
     # large example sets (33-70 examples on one side): whatever is yielded separates them, whatever the sizes
     big = [([5.5, "x"], list(range(1, 34))), (list(range(1, 41)), [5.5, 6.5]), (["s%d" % k for k in range(40)], list(range(40))), ([None], [k / 2 for k in range(1, 70)]),
-           ([[k] for k in range(35)], [(k,) for k in range(3)] + list(range(33))), (list(range(33)) + ["x"], [True, False] * 17)]
+           ([[k] for k in range(35)], [(k,) for k in range(3)] + list(range(33))), (list(range(33)) + ["x"], [True, False] * 17),
+           # more than 64 / 100 / 128 examples of one type with mixed truthiness (a summary "one example per type" would lose it)
+           ([None, ""], list(range(100)) + [1.5]), ([""] + ["s%d" % k for k in range(80)], [None]), ([0.0] + [k + 0.5 for k in range(130)], [[]]), ([[], [1]] * 40, [0, 1] * 70)]
     for F, T in big:
         items, status, _ = pull(list(F), list(T), 10, EVENTS_SHALLOW * 20)
         runs += 1
